@@ -710,6 +710,18 @@ func (r *runner) recoverStages(acked uint64, res *recoverLine) *stageError {
 			fmt.Fprintf(os.Stderr, "scenario: close after recover: %v\n", err)
 		}
 	}()
+	// Open must have cleared every staging file a kill left behind in the meta directory
+	// (litestream.go removeTmpFiles, called from DB.Open): "needs no repair".
+	var stale []string
+	_ = filepath.WalkDir(filepath.Join(r.root, "src", ".db-litestream"), func(p string, d fs.DirEntry, err error) error {
+		if err == nil && !d.IsDir() && strings.HasSuffix(p, ".tmp") {
+			stale = append(stale, p)
+		}
+		return nil
+	})
+	if len(stale) > 0 {
+		return stageErr("tmp-after-open", fmt.Errorf("staging files survive Open: %v", stale))
+	}
 	if err := r.insertN(1); err != nil {
 		return stageErr("syncandwait", fmt.Errorf("app insert: %w", err))
 	}
